@@ -29,9 +29,11 @@ class FamResult:
 
 def alt_match(impl, model):
     """The model may print `a/b` where two goroutines legitimately race (documented in the model); either is accepted."""
-    if "/" not in model:
+    if "/" not in model and "RACE:" not in model:
         return False
     rx = re.escape(model)
+    # a blocked Header() races with the watcher that publishes "no headers" when the context ends
+    rx = rx.replace(re.escape("other:RACE:ctx-or-nil-headers"), r"(?:ctx:canceled|ctx:deadline|md\{-\})")
     rx = re.sub(r"(\d+)((?:/\d+)+)", lambda m: "(?:" + "|".join([m.group(1)] + m.group(2).strip("/").split("/")) + ")", rx)
     return re.fullmatch(rx, impl) is not None
 
@@ -399,6 +401,17 @@ _SWORLD_RULE = ("S-world: real serveTunnel with scripted handlers (4 call shapes
                 "non-trivial = distinct non-empty observations in the property's view")
 
 
+_CWORLD_RULE = ("C-world: real newTunnelChannel/recvLoop/client streams with scripted callers (4 call shapes, deadlines, pre-cancelled contexts) "
+                "against a raw server inside a synctest bubble, one stimulus per quiescence: settings exchange (valid, empty/unknown/duplicate revisions, "
+                "wrong id, wrong first frame, EOF), headers, response data in all chunkings, close with every status class and trailers, window "
+                "updates, and hostile frames (mis-declared sizes, overruns, stray continuations, unexpected settings, unset frames, unknown ids), "
+                "cancel, Close, carrier EOF/failure; non-trivial = distinct non-empty observations in the property's view")
+
+
+def CWORLD(prop):
+    return world_family("cworld", "^TestCWorldRandom$", "cworld", MON.CWorldMonitor, prop, "c.init", _CWORLD_RULE, 300, 6000)
+
+
 def SWORLD(prop):
     return world_family("sworld", "^TestSWorldRandom$", "sworld", MON.SWorldMonitor, prop, "svc ", _SWORLD_RULE, 300, 6000)
 
@@ -413,7 +426,7 @@ PROPS = {
     "C08": {
         "lean_targets": ["Proofs.Props.C08"],
         "prop_files": ["Proofs/Props/C08.lean"],
-        "families": [SWORLD("C08"), FINDMETHOD],
+        "families": [SWORLD("C08"), CWORLD("C08"), FINDMETHOD],
         "side_conditions": ["Proofs.Facts.server_initial_lastSeen"],
         "trusted_base": ["L-frame server endpoint model TunnelModel/LFrame/Server.lean (one step = one stimulus run to quiescence)",
                          "Method.lean model of method-name splitting and findMethod"],
@@ -423,7 +436,7 @@ PROPS = {
     "C09": {
         "lean_targets": ["Proofs.Props.C09"],
         "prop_files": ["Proofs/Props/C09.lean"],
-        "families": [SWORLD("C09")],
+        "families": [SWORLD("C09"), CWORLD("C09")],
         "side_conditions": ["Proofs.Facts.window_eq"],
         "trusted_base": ["L-frame server endpoint model TunnelModel/LFrame/Server.lean",
                          "panic capture in the harness (recover in the goroutine running serveTunnel)"],
@@ -439,19 +452,30 @@ PROPS = {
     "C16": {
         "lean_targets": ["Proofs.Props.C16"],
         "prop_files": ["Proofs/Props/C16.lean"],
-        "families": [SWORLD("C16")],
+        "families": [SWORLD("C16"), CWORLD("C16")],
         "trusted_base": ["L-frame server endpoint model TunnelModel/LFrame/Server.lean (readMsg look-ahead, numSent guard)"],
         "assumptions": ["as C08"],
     },
     "C01": {
         "lean_targets": ["Proofs.Lemmas.Framing"],
         "prop_files": [],
-        "families": [SWORLD("C01")],
+        "families": [SWORLD("C01"), CWORLD("C01")],
+    },
+    "C11": {
+        "lean_targets": ["Proofs.Props.C11"],
+        "prop_files": ["Proofs/Props/C11.lean"],
+        "families": [CWORLD("C11"), SUPPORTED],
+        "side_conditions": ["Proofs.Facts.supported_enabled", "Proofs.Facts.supported_disabled", "Proofs.Facts.settings_stream_id", "Proofs.Facts.negotiate_header"],
+        "trusted_base": ["Negotiate.lean model of the revision loop in recvLoop and of supportedRevisions",
+                         "L-frame client endpoint model TunnelModel/LFrame/Client.lean (settings phase)"],
+        "assumptions": ["the negotiate header is exchanged by grpc-go metadata as the handlers expect (exercised in the W2 interop family)"],
     },
     "C03": {
-        "lean_targets": [],
-        "prop_files": [],
-        "families": [SWORLD("C03")],
+        "lean_targets": ["Proofs.Props.C03"],
+        "prop_files": ["Proofs/Props/C03.lean"],
+        "families": [SWORLD("C03"), CWORLD("C03")],
+        "trusted_base": ["L-frame server endpoint model TunnelModel/LFrame/Server.lean; client endpoint model TunnelModel/LFrame/Client.lean"],
+        "assumptions": ["as C08", "bounded transport buffering (finite K) is represented by the loop-idle observation B=1 of the harness, not by a theorem yet"],
     },
     "C05": {
         "lean_targets": ["Proofs.Props.C05"],
